@@ -97,7 +97,7 @@ type Ctl struct {
 func (c *Ctl) Kind() string { return "ctl" }
 func (c *Ctl) Caps() schema.Caps {
 	cp := schema.FullCaps()
-	cp.KeyTypes = []string{"int64", "uint8", "enum", "decimal64"}
+	cp.KeyTypes = []string{"int64", "uint8", "enum", "decimal64", "decimal64x"}
 	return cp
 }
 func (c *Ctl) GenOpts() model.GenOpts { return model.DefaultGen() }
@@ -307,7 +307,7 @@ func canonScalar(s *schema.Node, v reflect.Value) (string, error) {
 	case reflect.Bool:
 		return strconv.FormatBool(v.Bool()), nil
 	case reflect.Float32, reflect.Float64:
-		return strconv.FormatFloat(v.Float(), 'f', 2, 64), nil
+		return model.FormatDecimal(v.Float()), nil
 	}
 	return "", fmt.Errorf("leaf %s holds unsupported Go value %s", s.Name, v.Type())
 }
